@@ -306,7 +306,7 @@ def run(ctx):
                 time = (time * np.float32(2.0 ** -20)).astype(np.float32)
             elif tmode == "huge":                            # long runs: 2^24 ps and beyond (still exactly representable steps)
                 time = (time * np.float32(2.0 ** 22)).astype(np.float32)
-            cellmode = rng.choice(["none", "ortho", "ortho-varying", "tri", "tri-varying", "tri-mono", "tri-hex", "tri-rdod", "tri-mono-varying"])
+            cellmode = rng.choice(["none", "ortho", "ortho-varying", "tri", "tri-varying", "tri-mono", "tri-hex", "tri-rdod", "tri-mono-varying", "tri-acute"])
             top = make_top(md, na)
             t = md.Trajectory(xyz.copy(), top, time=time.copy())
             if cellmode != "none":
@@ -317,6 +317,8 @@ def run(ctx):
                     A = np.array([[90.0, 75.0 + (15.0 * (f % 3) if "varying" in cellmode else 0), 90.0] for f in range(nf)], dtype=np.float32)   # varying: 75, 90 (a rectangular frame), 105
                 elif "hex" in cellmode:
                     A = np.array([[90.0, 90.0, 120.0]] * nf, dtype=np.float32)
+                elif "acute" in cellmode:                     # a rhombohedral cell with every angle and (below 6 nm) every length under 60
+                    A = np.array([[55.0, 55.0, 55.0]] * nf, dtype=np.float32)
                 elif "rdod" in cellmode:
                     A = np.array([[60.0, 60.0, 90.0]] * nf, dtype=np.float32)
                 else:
@@ -417,7 +419,7 @@ def run(ctx):
                         viol("cell|appears|%s|%s" % (base, "one-atom" if na == 1 else "general"), ".%s: a trajectory without a unit cell reloads with cell lengths %s" % (ext, l.unitcell_lengths[0]), rp)
                 elif base != "xyz":
                     if l.unitcell_lengths is None:
-                        viol("cell|lost|%s" % base, ".%s stores unit cells but the reloaded trajectory has none" % ext, rp)
+                        viol("cell|lost|%s%s" % (base, "|two-atoms-all-below-60" if base == "rst7" and na == 2 and float(max(t.unitcell_lengths.max() * 10, t.unitcell_angles.max())) < 60 else ""), ".%s stores unit cells but the reloaded trajectory has none" % ext, rp)
                     else:
                         tolL = {"mdcrd": 6e-5, "pdb": 6e-5, "gro": 2e-5, "rst7": 1e-6}.get(base, 1e-5) * max(1.0, float(L.max()) / 4)
                         tolA = {"pdb": 6e-3}.get(base, 2e-3)
